@@ -21,7 +21,7 @@ import (
 func init() {
 	setTier("C17", 200000, 300, 6000000, 1800)
 	levelOf["C17"] = "exploration"
-	ruleOf["C17"] = "one run = one seeded scenario (log id/object name, level, interval, keep-days, rotation; a logs directory pre-populated with own files of various ages, look-alike foreign files and a sub-directory; 1-4 logging tasks issuing calls of all methods with unique tokens and shared or unique message ids; clock steps of seconds to many days incl. across midnight; Read calls with existing, missing, growing and directory-escaping names) under one seeded schedule on a virtual clock; oracles over the simulated disk's final content (plus: reload of level/interval at runtime, open and write failures on the log file, impossible dates, glob characters in home path and log id); non-trivial = a context switch inside a log/Read call or a clock step fired; distinct = distinct fingerprint of (switch sequence, clock steps, per-call outcome, surviving file set)"
+	ruleOf["C17"] = "one run = one seeded scenario (log id/object name, level, interval, keep-days, rotation; a logs directory pre-populated with own files of various ages, look-alike foreign files and a sub-directory; 1-4 logging tasks issuing calls of all methods with unique tokens and shared or unique message ids; clock steps of seconds to many days incl. across midnight; Read calls with existing, missing, growing and directory-escaping names) under one seeded schedule on a virtual clock; oracles over the simulated disk's final content (plus: reload of level/interval/keep-days at runtime, a twin logger with the same object name, open and write failures on the log file, impossible dates, glob characters in home path and log id); non-trivial = a context switch inside a log/Read call or a clock step fired; distinct = distinct fingerprint of (switch sequence, clock steps, per-call outcome, surviving file set)"
 	assumptionsOf["C17"] = []string{
 		"the logger is obtained through NewFileLogger; level/interval/keep-days/rotation are applied through the public ApplyConfig in the sequential prologue (or left at their defaults)",
 		"a line may land in the previous day's file if the date changed less than 21 virtual seconds (two 10 s cycles plus slack) before the call; later lines must be in the new day's file",
